@@ -5,6 +5,9 @@ mod gen;
 mod handler;
 mod ident;
 mod inst;
+mod json;
+mod oracle;
+mod search;
 mod proto;
 mod rt;
 mod run;
@@ -169,8 +172,65 @@ fn main() {
                 }
             }
         }
+        "search" => {
+            let prop = a.get("prop").cloned().unwrap_or_default();
+            let budget: u64 = a.get("budget").and_then(|s| s.parse().ok()).unwrap_or(1000);
+            let threads: u64 = a.get("threads").and_then(|s| s.parse().ok()).unwrap_or(8).max(1);
+            let thorough = a.contains_key("thorough");
+            let per = (budget + threads - 1) / threads;
+            let t0 = std::time::Instant::now();
+            let handles: Vec<_> = (0..threads)
+                .map(|t| {
+                    let prop = prop.clone();
+                    std::thread::spawn(move || {
+                        std::panic::catch_unwind(|| search::search(&prop, seed, t * 10_000_000, per, thorough)).ok()
+                    })
+                })
+                .collect();
+            let mut out = search::SearchOut::default();
+            let mut crashed = 0;
+            for h in handles {
+                match h.join() {
+                    Ok(Some(r)) => out.merge(r),
+                    _ => crashed += 1,
+                }
+            }
+            println!("{}", out.to_json(&prop, seed, t0.elapsed().as_secs_f64()));
+            if crashed > 0 {
+                eprintln!("{} search workers crashed", crashed);
+                std::process::exit(4);
+            }
+            if !out.violations.is_empty() {
+                std::process::exit(3);
+            }
+        }
+        "search-replay" => {
+            let prop = a.get("prop").cloned().unwrap_or_default();
+            let path = a.get("file").cloned().unwrap_or_default();
+            let text = std::fs::read_to_string(&path).unwrap_or_default();
+            let j = json::parse(&text);
+            let case = j.as_ref().and_then(|j| search::SearchCase::from_json(j).or_else(|| j.get("case").and_then(search::SearchCase::from_json)));
+            match case {
+                None => {
+                    eprintln!("cannot read search case {}", path);
+                    std::process::exit(2);
+                }
+                Some(c) => {
+                    let fs = search::replay(&prop, &c);
+                    println!("case: {}", c.text());
+                    if fs.is_empty() {
+                        println!("property holds on this case");
+                    } else {
+                        for f in &fs {
+                            println!("FAILS clause=`{}` signature={} detail={}", f.clause, f.signature, f.detail);
+                        }
+                        std::process::exit(3);
+                    }
+                }
+            }
+        }
         _ => {
-            eprintln!("usage: harness corr|replay ...");
+            eprintln!("usage: harness corr|replay|search|search-replay ...");
             std::process::exit(2);
         }
     }
